@@ -57,6 +57,23 @@ let show_outcome strs argc rm o =
        String.concat ";" (List.map (fun (k, v) -> string_of_int (int_of_nat k) ^ ":" ^ show_word v) sto.sa))
     (String.concat "," (List.map (function None -> "N" | Some sid -> str_of sid) s.st_argv))
 
+(* spellings: F:xx  B:hex  A:xx:hex  S:xx:hex  f:hex  e:hex:hex  s:hex:hex  b:hex:hex  Rs:xx:hex;hex  Rl:hex:hex;hex  W:hex *)
+let byte_of_hex h = z_of_int (int_of_string ("0x" ^ h))
+let parse_spelling (t : string) : spelling =
+  match String.split_on_char ':' t with
+  | ["F"; x] -> ShortFlag (byte_of_hex x)
+  | ["B"; xs] -> Bundle (zbytes_of_hex xs)
+  | ["A"; x; v] -> ShortAttached (byte_of_hex x, zbytes_of_hex v)
+  | ["S"; x; v] -> ShortSep (byte_of_hex x, zbytes_of_hex v)
+  | ["f"; l] -> LongFlag (zbytes_of_hex l)
+  | ["e"; l; v] -> LongEq (zbytes_of_hex l, zbytes_of_hex v)
+  | ["s"; l; v] -> LongSep (zbytes_of_hex l, zbytes_of_hex v)
+  | ["b"; l; v] -> BoolWord (zbytes_of_hex l, zbytes_of_hex v)
+  | ["Rs"; x; ws] -> ArgListRest (ByShort (byte_of_hex x), List.map zbytes_of_hex (String.split_on_char ';' ws))
+  | ["Rl"; l; ws] -> ArgListRest (ByLong (zbytes_of_hex l), List.map zbytes_of_hex (String.split_on_char ';' ws))
+  | ["W"; w] -> Word (zbytes_of_hex w)
+  | _ -> failwith "bad-spelling"
+
 let run = function
   | ["parse"; pre; rm; allow; ret; bad0; binit; table; argv] ->
     let tbl = if table = "-" then [] else List.map parse_opt (split_on ',' table) in
@@ -70,6 +87,33 @@ let run = function
                   e_allow = z_of_int (int_of_string allow); e_ret = (ret <> "0") } in
     let r = if pre = "2" then parse_twice (env true) s0 else parse (env (pre <> "0")) s0 in
     show_res (show_outcome strs argc rmb) r
+  | ["spell"; pre; rm; allow; ret; bad0; binit; table; argv; spell] ->
+    (* the ideal reading of the spelling list, printed like an outcome (argv up to its first NULL) *)
+    let tbl = if table = "-" then [] else List.map parse_opt (split_on ',' table) in
+    let strs = List.map zbytes_of_hex (split_on ',' argv) in
+    let sps = if spell = "-" then [] else List.map parse_spelling (split_on ',' spell) in
+    if List.tl strs <> render sps then "DRIVER-ERROR:render-differs"
+    else if not (sps_ok tbl sps && names_ok tbl) then "DRIVER-ERROR:side-condition-violated"
+    else begin
+      let rmb = rm <> "0" in
+      let rep v = List.init nslot (fun _ -> v) in
+      let sto = { sb = rep (z_of_hex binit); si = rep (z_of_int i_init); ss = rep None; sl = rep None; sa = [] } in
+      let (sto', ws) =
+        if pre = "2" then ideal false tbl sps (fst (ideal true tbl sps sto))
+        else ideal (pre <> "0") tbl sps sto in
+      let argc = List.length strs in
+      let fl_pre = (pre = "1" && argc <= 1) in
+      let args = if rmb && pre <> "1" && argc > 1 then List.hd strs :: ws else strs in
+      Printf.sprintf "ok bad=%s helps=0 fl=%d B=%s I=%s S=%s L=%s A=%s argv=%s,N" bad0
+        ((if fl_pre then 1 else 0) + (if rmb then 2 else 0))
+        (String.concat "," (List.map hex_of_z sto'.sb))
+        (String.concat "," (List.map (fun v -> string_of_int (int_of_z v)) sto'.si))
+        (String.concat "," (List.map show_word sto'.ss))
+        (String.concat "," (List.map show_list sto'.sl))
+        (if sto'.sa = [] then "-" else
+           String.concat ";" (List.map (fun (k, v) -> string_of_int (int_of_nat k) ^ ":" ^ show_word v) sto'.sa))
+        (String.concat "," (List.map hex_of_zbytes args))
+    end
   | ["numwords"; s] -> string_of_int (int_of_nat (num_words (zbytes_of_hex s)))
   | ["getword"; k; s] -> show_word (get_word (nat_of_int (int_of_string k)) (zbytes_of_hex s))
   | ["strtol"; s] -> string_of_int (int_of_z (to_int (strtol0 (zbytes_of_hex s))))
